@@ -6,7 +6,7 @@
    External behaviour enters as parameters: [parse] (regexp.Compile: pattern text -> AST),
    [lsel] (k8s label selectors), [enc] (go-yaml emitter), [cluster_scoped] (openapi). *)
 From KV Require Import Base.Regex Base.RegexProofs Yaml.Match Yaml.MatchProofs Yaml.MatchTotalProofs Yaml.MatchCreateProofs Yaml.MatchFrameProofs Yaml.MatchDisjointProofs
-  Res.Image Res.ImageProofs Res.ImageNormProofs Res.Selector Res.SelectorProofs Res.Replica Res.ReplicaProofs
+  Res.Image Res.ImageProofs Res.ImageNormProofs Res.ImageParseProofs Base.RegexParse Res.Selector Res.SelectorProofs Res.Replica Res.ReplicaProofs
   Res.Replacement Res.ReplacementProofs Res.ReplacementFrameProofs.
 
 (* ------------------------------------------------------------------ regular expressions *)
@@ -78,6 +78,22 @@ Theorem C10_image_exact :
     forall s t, is_matched parse s t = Ok true <-> image_ref_of t s.
 Proof. exact image_exact. Qed.
 Print Assumptions C10_image_exact.
+
+(* The same WITHOUT any hypothesis about the parser: with the Gallina parser [re_parse]
+   (Base/RegexParse.v) in the place of regexp.Compile, for every ASCII entry name.  The tie to Go's
+   regexp/syntax is the correspondence: for every generated entry name the AST re_parse yields for the
+   pattern text and the AST Go yields have the same normal form (case kind KImgAst). *)
+Theorem C10_image_exact_parsed :
+  forall s t, ascii_text t = true -> (is_matched re_parse s t = Ok true <-> image_ref_of t s).
+Proof. exact image_exact_parsed. Qed.
+Print Assumptions C10_image_exact_parsed.
+
+(* what the parser reads out of the pattern the code builds: ^, the bytes of t, the two optional groups, $ *)
+Theorem C10_regex_parse_image_pattern :
+  forall t, ascii_text t = true ->
+    re_parse ("^" ++ quote_meta t ++ img_suffix) = Some (cat_of_list (image_items t)).
+Proof. exact re_parse_image_pattern. Qed.
+Print Assumptions C10_regex_parse_image_pattern.
 
 (* ... and the match always answers (no panic, no error) *)
 Theorem C10_image_match_total :
